@@ -19,6 +19,8 @@ class Finding:
         self.replay: Optional[str] = d.get("replay")
         self.commit: Optional[str] = d.get("commit")
         self.id: str = d.get("id", "")
+        #: generator profile overrides that keep this finding's shape out of the main campaign
+        self.exclude_profile: dict = d.get("exclude_profile") or {}
 
     def matches(self, prop: str, tag: str) -> bool:
         return self.property == prop and (self.tag == tag or fnmatch.fnmatchcase(tag, self.tag))
@@ -41,3 +43,34 @@ def match_open(findings: List[Finding], prop: str, tag: str) -> Optional[Finding
         if f.status == "open" and f.matches(prop, tag):
             return f
     return None
+
+
+def main_and_probe_profiles(prop: str, base: dict):
+    """-> (main_profile_overrides, {probe_name: probe_overrides}).
+
+    The main campaign excludes the shape of every open finding by construction; one probe
+    campaign per open finding generates that shape (all other exclusions still applied)."""
+    opens = [f for f in open_for(prop) if f.exclude_profile]
+
+    def merged(skip=None):
+        out = dict(base)
+        classes = list(base.get("exclude_classes", []))
+        for f in opens:
+            if f is skip:
+                continue
+            for k, v in f.exclude_profile.items():
+                if k == "exclude_classes":
+                    classes += [c for c in v if c not in classes]
+                else:
+                    out[k] = v
+        out["exclude_classes"] = classes
+        return out
+
+    probes = {}
+    for f in opens:
+        prof = merged(skip=f)
+        w = {c: 12 for c in f.exclude_profile.get("exclude_classes", [])}
+        if w:
+            prof["class_weights"] = w
+        probes["probe:" + (f.id or f.tag)] = prof
+    return merged(), probes
